@@ -35,7 +35,7 @@ ASSUMPTIONS = [
     "termination = returns before 60*M recorder entries / 20000 loop iterations; a SIGALRM backstop names the machine",
 ]
 ENGINES = ("sync", "async")
-KINDS = ("always", "raise", "ondone", "invoke", "pure", "choose", "enqueue")
+KINDS = ("always", "raise", "ondone", "invoke", "pure", "choose", "enqueue", "mixed_raise", "mixed_done", "mixed_sendto")
 INF = 10 ** 9
 
 
@@ -71,6 +71,27 @@ def make(kind: str, M: int, L: int, trigger: str) -> Dict[str, Any]:
             "entry": [A.raise_("LOOP")],
             "states": {"a": {}},
             "on": {"LOOP": {"actions": step + [A.choose([{"guard": "lt", "actions": [A.raise_("LOOP")]}])]}},
+        }
+    elif kind in ("mixed_raise", "mixed_sendto"):
+        # the self-delivery happens in the settle phase: event -> always -> entry raises event
+        raiser = A.raise_("KICK") if kind == "mixed_raise" else A.send_to(lambda a: a["context"].get("__self__") or "m", "KICK")
+        if kind == "mixed_sendto":
+            raiser = {"type": "xstate.raise", "params": {"event": {"type": "KICK"}}}
+        loop = {
+            "initial": "ping",
+            "states": {
+                "ping": {"always": [{"guard": "lt", "target": "pong", "actions": step}]},
+                "pong": {"entry": [raiser], "on": {"KICK": "ping"}},
+            },
+        }
+    elif kind == "mixed_done":
+        # always -> compound whose initial child is final -> onDone -> back
+        loop = {
+            "initial": "ping",
+            "states": {
+                "ping": {"always": [{"guard": "lt", "target": "box", "actions": step}]},
+                "box": {"initial": "f", "states": {"f": {"type": "final"}}, "onDone": {"target": "ping"}},
+            },
         }
     elif kind == "ondone":
         loop = {
